@@ -8,12 +8,15 @@ import families as fam_mod
 ID = 'C10'
 NAMESPACE = 'VL.C10'
 LEAN_MODULES = ['VotelibProofs.Props.C10']
-GEN_MODULES = ['Divisor', 'Quota', 'Threshold']
+GEN_MODULES = ['Divisor', 'Quota', 'Threshold', 'RankScore']
 REQUIRED = ['getNBest_perm', 'getNBest_rename', 'mem_getNBest_iff', 'symmetric_candidates', 'ha_perm_seats', 'ha_perm_tie',
             'ha_rename_seats', 'ha_rename_tie', 'isNth_perm', 'aboveSorted_perm', 'level_perm',
             'abs_threshold_perm', 'abs_threshold_rename', 'abs_threshold_symmetric', 'rel_threshold_perm', 'rel_threshold_rename',
             'quota_selector_perm', 'quota_selector_rename',
-            'quota_distributor_perm', 'quota_distributor_rename', 'largest_remainder_perm', 'largest_remainder_rename']
+            'quota_distributor_perm', 'quota_distributor_rename', 'largest_remainder_perm', 'largest_remainder_rename',
+            'approval_to_simple_perm', 'approval_to_simple_rename', 'ranked_to_positional_perm', 'ranked_to_positional_rename',
+            'ranked_to_condorcet_perm', 'positional_rule_perm', 'positional_rule_rename', 'approval_rule_perm',
+            'approval_rule_rename']
 _LR = ['hare', 'hagenbach_bischoff', 'imperiali', 'droop', 'hare_rounded', 'hagenbach_bischoff_ceil', 'hagenbach_bischoff_rounded']
 
 
@@ -35,7 +38,43 @@ for _q in ['hare', 'droop']:
 MODEL['rel_threshold_5pc'] = (_simple('rel_threshold', threshold='1/20', accept_equal=True), 'sel')
 MODEL['rel_threshold_third'] = (_simple('rel_threshold', threshold='1/3', accept_equal=False), 'sel')
 MODEL['abs_threshold_2'] = (_simple('abs_threshold', threshold='2', accept_equal=True), 'sel')
+
+
+def _c13_ranked(prof):
+    """ranked profile in the encoding of the C13 driver: a shared rank is {"set": [...]}"""
+    return [[[({'set': it} if isinstance(it, list) else it) for it in b], w] for b, w in prof]
+
+
+def _ranked(op, **kw):
+    return lambda prof, n: dict(op=op, votes=_c13_ranked(prof), n=n, **kw)
+
+
+for _nm, _sc in [('borda', {'s': 'Borda', 'base': 1}), ('borda0', {'s': 'Borda', 'base': 0}), ('dowdall', {'s': 'Dowdall'}),
+                 ('geometric', {'s': 'Geometric', 'base': 2}), ('modified_borda', {'s': 'ModifiedBorda'}),
+                 ('fixed_top3', {'s': 'FixedTop', 'top': 3})]:
+    MODEL[f'positional_{_nm}'] = (_ranked('c10_positional', scorer=_sc), 'sel')
+for _nm, _split in [('approval_av', False), ('approval_sav', True)]:
+    MODEL[_nm] = ((lambda prof, n, _split=_split: dict(op='c10_approval', votes=[[{'set': b}, w] for b, w in prof], n=n, split=_split)), 'sel')
+for _nm in ['copeland_2o', 'copeland_raw', 'schulze', 'minimax_winvotes', 'minimax_margins', 'minimax_pwo']:
+    MODEL[f'condorcet_{_nm}'] = (_ranked('c10_condorcet', name=_nm), 'sel')
+for _fam, _nm in [('condorcet_winner', 'winner'), ('smith_set', 'smith'), ('schwartz_set', 'schwartz')]:
+    MODEL[_fam] = (_ranked('c10_condorcet', name=_nm), 'sel')
+# C12 models: approval profile [[sorted ballot, "w"]], score profile [[[[c, "s"], ...], w]] (integer weights)
+MODEL['approval_pav'] = (_simple('c10_pav'), 'sel')
+MODEL['approval_spav'] = (_simple('spav'), 'sel')
+
+
+def _score(**kw):
+    return lambda prof, n: dict(op='c10_score', votes=[[[[c, str(sc)] for c, sc in b], int(w)] for b, w in prof], n=n, **kw)
+
+
+MODEL['score_mean'] = (_score(function='mean'), 'sel')
+MODEL['score_sum0'] = (_score(function='sum', unscored='0'), 'sel')
+MODEL['score_median'] = (_score(function='median_low'), 'sel')
 PROVED_FAMILIES = list(MODEL)
+# modelled (composition of the owners' models, correspondence checked here) but not yet proved order independent
+for _nm in ['kemeny_young', 'rankedpairs_winvotes', 'rankedpairs_margins', 'rankedpairs_pwo']:
+    MODEL[f'condorcet_{_nm}'] = (_ranked('c10_condorcet', name=_nm), 'sel')
 K_PERM = 3
 K_REN = 3
 HASH_SEEDS = ['0', '1', '2', '3', 'random']
